@@ -96,6 +96,16 @@ func c08NameCheck(c c08Name, info *vlib.Info) *vlib.Failure {
 	if res.OpenErr != "" {
 		return vlib.Failf("harness", "cannot open the root: %s", res.OpenErr)
 	}
+	if c.Quoted && bareLegal(c.Name) && !strings.Contains(c.Name, "\"") {
+		// quoting a name that needs no quotes must not change anything
+		root2 := "JSIGHT 0.3\nINCLUDE " + c.Name + "\n"
+		_ = os.WriteFile(filepath.Join(proj, "root.jst"), []byte(root2), 0o644)
+		res2 := vlib.RunIn(vlib.Project{Root: "root.jst", Files: map[string]string{"root.jst": root2}}, proj)
+		_ = os.WriteFile(filepath.Join(proj, "root.jst"), []byte(root), 0o644)
+		if res2.Accepted != res.Accepted || res2.JSON != res.JSON {
+			return vlib.Failf("quoted-name-differs", "INCLUDE %s and INCLUDE %s give different results (accepted %v / %v)", param, c.Name, res.Accepted, res2.Accepted)
+		}
+	}
 	if res.Accepted {
 		if bad {
 			return vlib.Failf("bad-name-accepted", "INCLUDE %s is accepted although the name is absolute or has a '.', '..' component or a backslash", param)
